@@ -19,10 +19,19 @@ TEXT = {
  "C05": ("Same histories, reusable-resource profile (capacities incl. 0, amounts at/above/below capacity, durations incl. 0): exact usage at every start pulse <= capacity; extracted timeline atoms and usage per segment recomputed.", "3.2, 4 (C05)"),
  "C06": ("Same histories, temporal profile (facts and goals on plain Interval/Impulse predicates, state variables, resources): origin <= start <= end <= horizon, duration == end-start >= 0, origin <= at <= horizon for every active atom.", "3.2, 4 (C06)"),
  "C17": ("Same histories, object profile (class hierarchies with constructors chaining to the super class, object fields, instances created before/after variables and across read() units, enum unions): each object/enum variable takes exactly one value inside the domain it was declared with, constructor arguments are read back from the fields, constraints through field access hold for the chosen instances.", "3.2, 4 (C17)"),
+ "C18": ("Input faults enumerated: for every file of the corpus (the repository's examples up to a size limit plus three built-in token-rich programs) the stream feeding the real lexer/parser ends, or fails, at EVERY byte offset, and the full reader gets every prefix; seeded byte mutations on top. Outcome classification only: returned or std::exception = fine; signal, abort, failed assertion, alien exception or no answer within 2 s CPU = violation. Plus seeded valid programs (PLAN engine) and valid API histories (NET engine) on assert-enabled builds (thorough: ASan+UBSan) where any abnormal termination is a violation.", "3.5, 4 (C18)"),
+ "C19": ("Discrete-event simulation of plan execution: the real executor ticks through solved generated plans while a seeded client delays starts/ends from inside the callbacks, reports failures and (quarantined, see KF-X2) adds late requirements; dispatch-history invariants (exactly-once start/end of active atoms, never early, delays honoured, time step, frozen past) are checked on the recorded callback history and the exact solution checker of PLAN re-validates the plan after every adaptation.", "3.3, 4 (C19)"),
+ "C20": ("The PARALLELIZE build with the real thread pool runs under a scheduler that owns every pthread synchronisation point: seeded search over interleavings, pool sizes and legal-but-unusual behaviours (spurious wake-ups, late workers); every schedule must reproduce the observation log of the sequential build (verdicts, literal values, values and bounds after every call, set of recorded clauses); a vector-clock happens-before detector fed by compiler instrumentation reports unsynchronised accesses whether or not they collide; no runnable thread = lost wake-up / deadlock.", "3.4, 4 (C20)"),
  "C14": ("Seeded object-variable histories (domains 1-5 over a shared pool, both creation forms, equalities between all pairs, assume/pop and sweeps): exactly-one, domain == not-excluded values, equality literal <=> same value, disjoint domains never equal; verdicts judged by z3.", "3.1, 4 (C14)"),
 }
 TECH = "deterministic simulation: seeded API-history + heap-layout search with reference-model oracles (z3 / Floyd-Warshall), ddmin-minimised replay files"
+TECH_BY_ENGINE = {"io": "deterministic fault injection: enumerated EOF / stream-failure at every byte of the corpus + seeded byte mutations, outcome classification in forked children; seeded valid programs/histories on assert and sanitizer builds",
+                  "exec": "deterministic discrete-event simulation of execution: seeded tick/delay/failure histories, callback-history invariants + exact plan re-validation, ddmin-minimised replay files",
+                  "par": "deterministic thread-schedule simulation: pthread interposition with a seeded baton scheduler, happens-before race detector on compiler instrumentation, comparison with the sequential build"}
 TECH_PLAN = "deterministic simulation: seeded problem + read/solve-history + heap-layout (+ build configuration) search, exact reference evaluator and z3 as oracles, ddmin-minimised replay files"
+NOTES = {"io": "Trusted: the classification of process outcomes by the worker supervisor; the corpus is the repository's examples (size-limited in the quick tier) plus three built-in programs; sampling for mutations and for valid programs/histories.",
+         "exec": "Trusted: the harness's reading of the executor callbacks and of the public solver API; an execution_exception is a legal outcome; LA temporal network only; two open known findings are quarantined (KF-X1, KF-X2).",
+         "par": "Trusted: the scheduler's model of mutexes/condition variables (POSIX semantics incl. spurious wake-ups); the race detector sees instrumented code only; sampling of schedules, not enumeration."}
 NOTE = "Trusted: z3 4.8.12 verdicts, GMP arithmetic, the harness's own meaning of each created construct; histories respect the documented API preconditions; sampling gives evidence, not proof."
 
 NA = [
@@ -39,7 +48,7 @@ def main():
         checks.append({"property_id": p, "quick_cmd": "./check %s --tier quick" % p, "thorough_cmd": "./check %s --tier thorough" % p,
                        "evidence_file": "evidence/%s.json" % p, "replay_cmd_template": "./check replay {path}", "engine": spec["engine"],
                        "level_claimed": {"category": spec["level"], "text": text, "design_ref": ref},
-                       "level_note": spec.get("level_note", NOTE), "technique": spec.get("technique", TECH_PLAN if spec["engine"] == "plan" else TECH)})
+                       "level_note": spec.get("level_note", NOTES.get(spec["engine"], NOTE)), "technique": spec.get("technique", TECH_BY_ENGINE.get(spec["engine"], TECH_PLAN if spec["engine"] == "plan" else TECH))})
     na = list(NA)
     for i in range(1, 21):
         p = "C%02d" % i
@@ -50,7 +59,10 @@ def main():
          "hooks": {"guard": "PSTLAB_ORATIO_VERIF", "enable": "checks configure /repo with -DCMAKE_CXX_FLAGS=-DPSTLAB_ORATIO_VERIF (vlib/common.py build_repo)",
                    "baseline_off_cmd": "cmake -G Ninja -S /repo -B /verif/.build/baseline -DCMAKE_BUILD_TYPE=RelWithDebInfo >/dev/null && cmake --build /verif/.build/baseline >/dev/null && ctest --test-dir /verif/.build/baseline -j8 --timeout 900",
                    "source_commits": commits, "add_only": True},
-         "engines": [{"name": "plan", "path": "sim/plan", "serves_properties": [p for p in sorted(PROPS) if PROPS[p]["engine"] == "plan"], "kind_free_text": "whole planner under read/solve histories and seeded heap layouts: generated RIDDLE problems, exact evaluator + z3"},
+         "engines": [{"name": "io", "path": "sim/io", "serves_properties": ["C18"], "kind_free_text": "input faults against lexer/parser/reader; with plan and net parts for valid use"},
+                     {"name": "exec", "path": "sim/exec", "serves_properties": ["C19"], "kind_free_text": "discrete-event simulation of the executor with a simulated client and clock"},
+                     {"name": "par", "path": "sim/par", "serves_properties": ["C20"], "kind_free_text": "pthread-interposing deterministic scheduler + happens-before race detector over the PARALLELIZE build"},
+                     {"name": "plan", "path": "sim/plan", "serves_properties": [p for p in sorted(PROPS) if PROPS[p]["engine"] == "plan"], "kind_free_text": "whole planner under read/solve histories and seeded heap layouts: generated RIDDLE problems, exact evaluator + z3"},
                      {"name": "net", "path": "sim/net", "serves_properties": [p for p in sorted(PROPS) if PROPS[p]["engine"] == "net"], "kind_free_text": "constraint network as a backtrackable store: seeded API histories, z3 + Floyd-Warshall reference"}],
          "checks": checks, "not_applicable": na,
          "notes": "known_findings.json lists fixed findings (regression replays under findings/) and open ones; tools/sensitivity.py runs checks against a changed scratch copy of /repo."}
